@@ -30,7 +30,8 @@ def _norm(e) -> str:
 def run(chk, repo: Repo):
     chk.rule("C19-R1", "indices and reductions on self.samples use the last axis, unless the method first requires vector form", floor=10)
     chk.rule("C19-R2", "burnthin: refusal, copy(self) with samples rebound to [..., Nb::Nt], all members of a joint set", floor=2)
-    chk.rule("C19-R3", "mean/median/variance/std are the NumPy reductions over axis -1; interval bounds ordered; width = upper - lower", floor=6)
+    chk.rule("C19-R3", "mean/median/variance/std are the NumPy reductions over axis -1; interval bounds ordered; width = upper - lower of compute_ci(percent) "
+                       "(the requested level is passed on to the interval the width is computed from)", floor=6)
     chk.rule("C19-R4", "variables zipped with rows in index order; chains stacked on their own axis by index", floor=3)
     chk.rule("C19-R5", "funvals/vector/parameters: identity when already in that form, per-sample conversion along the last axis, consistent flags", floor=3)
     ci = repo.cls(S)
@@ -41,8 +42,7 @@ def run(chk, repo: Repo):
     from .common import best_of as _bo
     _bo(chk, (1, 2), lambda t, lvl: _r5(t, repo, ci, lvl))          # as written; with the private helpers of the converters inlined
     chk.rule("C19-R6", "the stored chain is read-only for statistics and diagnostics: no method writes into self.samples in place, and a library function that is "
-                       "handed (a view of) the chain does not write into that argument (followed through calls between module-level functions); a statistic that "
-                       "takes an argument (percent) passes it on to every statistic it is computed from", floor=20)
+                       "handed (a view of) the chain does not write into that argument (followed through calls between module-level functions)", floor=20)
     _r6(chk, repo, ci)
 
 
